@@ -143,6 +143,8 @@ def apply_rename(d, mname, kind, old, new):
             c["n"] = r(c["n"])
         elif k == "pref" and kind == "inst":
             c["inst"] = r(c["inst"])
+        elif k == "noconn" and kind == "noconn" and c.get("name") is not None:
+            c["name"] = r(c["name"])
         elif k == "bref" and kind == "bundle":
             c["root"] = r(c["root"])
         elif k == "slice":
@@ -277,6 +279,13 @@ def corpus():
     for script in ([("sig", "s3", "i1_p")], [("sig", "s3", "i2_n")], [("sig", "s3", "nc1")], [("inst", "i4", "i1_p")], [("inst", "i5", "i1_p")],
                    [("inst", "i4", "i2_n")], [("inst", "i4", "nc1")], [("sig", "s3", "i1_p"), ("sig", "s2", "i1_p_")],
                    [("sig", "s3", "i5_0")], [("inst", "i4", "i5_1")], [("sig", "s2", "i5_0"), ("inst", "i4", "i5_0_")]):
+        out.append((base, script, None))
+    # the same with names as designers write them: capitals (`Drv.Y` next to `Drv_Y`), and no-connect names that are not identifiers
+    for script in ([("inst", "i1", "Drv"), ("sig", "s3", "Drv_p")], [("inst", "i1", "Drv"), ("inst", "i4", "Drv_p")], [("inst", "i2", "Rcv"), ("sig", "s3", "Rcv_n")],
+                   [("inst", "i2", "Rcv"), ("inst", "i4", "Rcv_n")], [("noconn", "nc1", "Nc"), ("sig", "s3", "Nc")], [("noconn", "nc1", "NC_1"), ("inst", "i4", "NC_1")],
+                   [("inst", "i5", "Arr"), ("sig", "s3", "Arr_0")], [("inst", "i5", "Arr"), ("inst", "i4", "Arr_1")],
+                   [("noconn", "nc1", "u1.qb"), ("sig", "s3", "u1_qb")], [("noconn", "nc1", "u1.qb"), ("inst", "i4", "u1_qb")],
+                   [("noconn", "nc1", "tap[0]"), ("sig", "s3", "tap_0_")], [("noconn", "nc1", "a b"), ("inst", "i4", "a_b")], [("noconn", "nc1", "x-y"), ("sig", "s2", "x_y")]):
         out.append((base, script, None))
     # flattened bundle members: designer names, and two members of one bundle
     B = {"name": "B0", "tree": {"sigs": [leaf("x", 1), leaf("u", 1), leaf("z", 1)], "subs": [{"n": "y", "flip": False, "role": None, "of": {"sigs": [leaf("v", 1)], "subs": []}}]}}
